@@ -5,4 +5,4 @@ S=/var/tmp/xv-scratch/seed-base
 rm -rf $S; mkdir -p $S; (cd /repo && git archive HEAD | tar -x -C $S)
 (cd $S && PYTHONPATH=$S timeout 3000 /venv/bin/python -m pytest -q -p no:cacheprovider -n 4 --timeout=600 tests --ignore=tests/xintegration 2>&1 | tail -60 | grep -E "^(FAILED|ERROR)|passed|failed" | sed 's/ - .*//' | sort > /var/tmp/xv-scratch/seedlogs/BASE.suite)
 rm -rf $S
-for job in "$@"; do echo $job; done | xargs -P 3 -n 1 sh -c 'p=${0%%/*}; k=${0##*/}; /verif/dev/confirm_seed.sh $p $k'
+for job in "$@"; do echo $job; done | xargs -P 2 -n 1 sh -c 'p=${0%%/*}; k=${0##*/}; /verif/dev/confirm_seed.sh $p $k'
